@@ -9,7 +9,14 @@ use core::cell::RefCell;
 
 pub use crate::sqlite::{Error, Result};
 
-pub const MAX_PARAMS: usize = 6;
+/// parameter-list capacity, fixed at compile time through `VENV_PARAMS` (default 6)
+pub const MAX_PARAMS: usize = match option_env!("VENV_PARAMS") {
+    Some(s) => {
+        let b = s.as_bytes();
+        if b.len() == 2 { ((b[0] - b'0') * 10 + (b[1] - b'0')) as usize } else { (b[0] - b'0') as usize }
+    }
+    None => 6,
+};
 pub const MAX_COLS: usize = 5;
 pub const MAX_ROWS: usize = 4;
 
